@@ -409,6 +409,9 @@ class Progress:
                 return 'nonneg'
             if nm in ('count', 'width', 'len_utf16'):
                 return 'nonneg'
+            if nm == 'sum' and t[1].startswith('core::iter::') and term_has(t, lambda x: isinstance(x, tuple) and len(x) == 2 and x[0] == 'fn'
+                                                                          and x[1].rsplit('::', 1)[-1] in ('len_utf8', 'len', 'len_utf16', 'count')):
+                return 'nonneg'     # a sum of lengths (usize values)
             if nm == 'unwrap_or' and len(t[2]) == 2:
                 o = strip_ref(t[2][0])
                 s2 = self.sign(t[2][1], body)
@@ -440,7 +443,8 @@ class Progress:
                 and t[1][1][1].startswith(('core::str::', 'core::iter::', 'core::slice::')):
             return 'nonneg'     # the usize payload of a std search result
         if t[0] == 'field' and t[2] == 0 and t[1][0] == 'field' and t[1][1][0] == 'downcast' and t[1][1][1][0] == 'call' \
-                and strip_generics(t[1][1][1][1]).split('::')[-1] == 'next' and ('CharIndices' in t[1][1][1][1] or 'Enumerate' in t[1][1][1][1]):
+                and strip_generics(t[1][1][1][1]).split('::')[-1] == 'next' and ('CharIndices' in t[1][1][1][1] or 'Enumerate' in t[1][1][1][1]
+                    or ('Peekable' in t[1][1][1][1] and term_has(t[1][1][1], lambda x: isinstance(x, tuple) and x and x[0] == 'call' and x[1].rsplit('::', 1)[-1] in ('char_indices', 'enumerate')))):
             return 'nonneg'     # the position half of a (position, item) pair
         return None
 
